@@ -41,6 +41,27 @@ def theoryOk (vm : VarMap) (c : Clause) : ThCert → Bool
     | none => false
   | .trusted => false
 
+/-- Boolean connectives (everything else of sort Bool is an atom for the SAT engine) -/
+def isConnective : Term → Bool
+  | .app o as => match o with
+    | .tru | .fls | .not | .and | .or | .xor | .imp => true
+    | .eq => as.all Term.isBool
+    | .ite => (Term.app o as).isBool
+    | _ => false
+
+/-- the values a Boolean model gives to the *atoms* (connective terms are not looked up: they must evaluate) -/
+def modelAssign (vm : VarMap) (m : List Lit) : PAssign :=
+  m.filterMap (fun l => (vm l.var).bind (fun t => if t.isBool && !isConnective t then some (t, !l.neg) else none))
+
+/-- every root evaluates to true from the atom values of the model alone -/
+def satOk (s : State) (m : List Lit) : Bool :=
+  let p := modelAssign s.vm m
+  s.roots.all (fun r => eval3 p r == some true)
+
+def answerOk (s : State) : Cdcl.Answer → Bool
+  | .sat m => satOk s m
+  | _ => true
+
 def step? (s : State) : Event → Option State
   | .input root c =>
     if inputOk s.vm root c then
@@ -51,7 +72,8 @@ def step? (s : State) : Event → Option State
       (Cdcl.step? s.core (.axiom_ c)).map (fun k => { s with core := k })
     else none
   | .learn c => (Cdcl.step? s.core (.learn c)).map (fun k => { s with core := k })
-  | .answer a => (Cdcl.step? s.core (.answer a)).map (fun k => { s with core := k })
+  | .answer a =>
+    if answerOk s a then (Cdcl.step? s.core (.answer a)).map (fun k => { s with core := k }) else none
 
 def run (s : State) : List Event → Option State
   | [] => some s
